@@ -58,15 +58,16 @@ type Stats struct {
 }
 
 type Ctx struct {
-	prop  string
-	tier  string
-	seed  int64
-	g     *Gen
-	st    *Stats
-	out   *bufio.Writer
-	seen  map[uint64]struct{}
-	limit int // max cases written for the model
-	scale int
+	prop           string
+	internalPanics int
+	tier           string
+	seed           int64
+	g              *Gen
+	st             *Stats
+	out            *bufio.Writer
+	seen           map[uint64]struct{}
+	limit          int // max cases written for the model
+	scale          int
 }
 
 func (x *Ctx) note(format string, a ...interface{}) {
@@ -206,6 +207,14 @@ func main() {
 	if *tier == "thorough" {
 		x.limit = 400000
 		x.scale = 10
+	}
+	if *prop == "C05" || *prop == "C18" {
+		nAlias := 0
+		aliasHook = func(fn string, s, t []byte, detail string) {
+			if nAlias++; nAlias <= 5 {
+				x.finding(Finding{Kind: "copy", Fn: fn, Case: (&Case{Fn: fn, S: s, T: t}).line(), Detail: "bytcase." + fn + ": " + detail})
+			}
+		}
 	}
 	writeStats := func() {
 		sort.Strings(st.Notes)
